@@ -4,6 +4,8 @@ use rusl::string::unix_str::UnixStr;
 use rusl::termios::tcsetattr;
 use rusl::unistd::{open, open_raw};
 
+use crate::unix::fd::OwnedFd;
+
 #[derive(Debug, Copy, Clone)]
 pub struct TerminalHandle {
     pub master: Fd,
@@ -23,7 +25,9 @@ pub fn openpty(
     const PTMX: &UnixStr = UnixStr::from_str_checked("/dev/ptmx\0");
     let use_flags: OpenFlags = OpenFlags::O_RDWR | OpenFlags::O_NOCTTY;
     unsafe {
-        let master = open(PTMX, use_flags)?;
+        // Owned until handed out, any early return closes what has been opened so far
+        let master_owned = OwnedFd(open(PTMX, use_flags)?);
+        let master = master_owned.0;
         let mut pty_num = 0;
         let pty_num_addr = core::ptr::addr_of_mut!(pty_num);
         // Todo: Maybe check if not zero and bail like musl does
@@ -44,6 +48,7 @@ pub fn openpty(
             let name = create_pty_name(bytename);
             open_raw(core::ptr::addr_of!(name) as usize, use_flags)?
         };
+        let slave_owned = OwnedFd(slave);
         if let Some(tio) = termios {
             tcsetattr(slave, SetAction::NOW, tio)?;
         }
@@ -54,6 +59,8 @@ pub fn openpty(
                 core::ptr::addr_of!(winsize) as usize,
             )?;
         }
+        core::mem::forget(master_owned);
+        core::mem::forget(slave_owned);
         Ok(TerminalHandle { master, slave })
     }
 }
